@@ -80,15 +80,23 @@ def rule_rich(tier, seed, have):
     return keep, len(cand)
 
 
+CERT = {"inf": set()}
+
+
 def replay_pass(rep, tier, cases, first):
     """whole-run validation by the Lean-verified `replay` (BB/Model/ValidateTrace.lean): the real
     run's reported rule applications are re-validated one by one and the run is re-played with the
     plain simulator in between; whatever the replay ends in is TRUE of the L0 machine
     (BB/Props/C02.lean), with the true step count - no step budget, only a per-application one."""
-    budget = 1_000_000 if tier == "thorough" else 50_000
+    budget = 300_000 if tier == "thorough" else 50_000
     napps = 400 if tier == "thorough" else 150
     # applications are needed only for runs that applied a rule (known from the first pass)
     sel = list(cases)
+    if len(sel) > 40000:
+        # thorough corpus: replay every run that applied a rule and a fixed tenth of the others
+        keep = [k for k, o in enumerate(first) if parse_kv(o).get("rulapp", "0") != "0" or k % 10 == 0]
+        sel = [sel[k] for k in keep]
+        first = [first[k] for k in keep]
     need = [k for k, (c, o) in enumerate(zip(sel, first)) if parse_kv(o).get("rulapp", "0") != "0"]
     traced = core.run_harness([f"ptrace {sel[k][0]} {napps} | {sel[k][1]}" for k in need])
     impl = list(first)
@@ -111,7 +119,7 @@ def replay_pass(rep, tier, cases, first):
         if rl > 20000:
             truncated += 1
             continue
-        enc_apps = "#".join(";".join(enc(x) for x in a.split(";")[:4]) for a in apps) or "-"
+        enc_apps = "#".join(";".join(enc(x) for x in a.split(";")[:5]) for a in apps) or "-"
         r_lines.append(f"replay {budget} {rl} {enc_apps} | {prog}")
         r_meta.append((lim, prog, r, blankrec, len(apps)))
     outs = core.run_driver(r_lines)
@@ -179,6 +187,19 @@ def replay_pass(rep, tier, cases, first):
             agree += 1
             if na:
                 with_apps += 1
+    # 'infrul' given by a rule: the replay stands in the configuration the verdict was given in;
+    # Sym.validateInf (theorem replaySym_limit_inf) certifies from there that the machine never
+    # halts and never spins out - a proof-backed certificate the code's own output does not contain
+    inf_lines, inf_idx = [], []
+    for k, ((lim, prog, r, blankrec, na), o) in enumerate(zip(r_meta, outs)):
+        if r["result"] == "infrul" and not blankrec and o.startswith("limit "):
+            f = parse_kv(o)
+            inf_lines.append(f"validateinf {f['state']} 3000 {f['tape']} | {prog}")
+            inf_idx.append(k)
+    inf_out = core.run_driver(inf_lines)
+    rep.cov["infrul_by_rule_replayed"] = len(inf_lines)
+    rep.cov["infrul_by_rule_certified_by_symbolic_rule"] = sum(1 for o in inf_out if o == "true")
+    CERT["inf"] = {r_meta[k][1] for k, o in zip(inf_idx, inf_out) if o == "true"}
     rep.cov["replay_runs"] = len(r_lines)
     rep.cov["replay_agree"] = agree
     rep.cov["replay_agree_runs_with_applications"] = with_apps
@@ -209,6 +230,7 @@ def confirm_infrul(rep, tier, lines, impl):
     outs = core.run_driver(q)
     by = {"recurrence (C07)": 0, "backward reasoner, repaired (C04)": 0, "closed position set (C06)": 0}
     conf = 0
+    confirmed_progs = []
     for i, pr in enumerate(progs):
         rec, ch, cs, ph, ps = outs[5 * i:5 * i + 5]
         ok = False
@@ -224,7 +246,10 @@ def confirm_infrul(rep, tier, lines, impl):
                 by["closed position set (C06)"] += 1
             ok = True
         conf += ok
+        if ok:
+            confirmed_progs.append(pr)
     rep.cov["infrul_by_rule_programs"] = len(progs)
+    rep.cov["infrul_by_rule_confirmed_by_decider_or_symbolic_rule"] = len({p_ for i, p_ in enumerate(progs) if p_ in CERT["inf"]} | set(confirmed_progs))
     rep.cov["infrul_by_rule_confirmed_by_a_verified_decider"] = conf
     rep.cov["infrul_by_rule_confirmed_by"] = by
 
